@@ -274,7 +274,10 @@ impl<'a> ser::Serializer for &'a mut SizeSerializer {
                 IsArrayElement::FirstElement => Ok(1 + l),
                 IsArrayElement::OtherElement => Ok(l),
             },
-            Some(NonNativeType::LazyValue) => Ok(l),
+            Some(NonNativeType::LazyValue) => {
+                self.non_native_type = None;
+                Ok(l)
+            }
             Some(NonNativeType::Timestamp)
             | Some(NonNativeType::Symbol)
             | Some(NonNativeType::SymbolRef) => unreachable!("serialize_bytes is only used for Binary, Decimal32, Decimal64, Decimal128, and Uuid"),
